@@ -320,6 +320,10 @@ func (s *syncSrvStream) Recv() (*pdpb.SyncRegionRequest, error) {
 }
 
 // leaderFollower runs one case; returns (violation, converged).
+// formerLeader: the follower used to be the leader: its cache holds an older view of the same
+// regions (same epoch, another leader) that came from heartbeats, i.e. with a raft term.
+var formerLeader bool
+
 func leaderFollower(n int, withLeader func(int) bool, incremental int, label string, endToEnd bool) (*evidence.Violation, bool, int) {
 	ctx, cancel := context.WithCancel(context.Background())
 	defer cancel()
@@ -378,6 +382,12 @@ func leaderFollower(n int, withLeader func(int) bool, incremental int, label str
 	folSrv := newMock(ctx, "follower")
 	defer folSrv.close()
 	fs := syncer.NewRegionSyncer(folSrv)
+	if formerLeader {
+		for _, r := range regions {
+			old := r.GetMeta().Peers[(int(r.GetID())+1)%3]
+			folSrv.bc.PutRegion(core.RegionFromHeartbeat(&pdpb.RegionHeartbeatRequest{Region: r.GetMeta(), Leader: old, Term: 5}))
+		}
+	}
 	if incremental > 0 {
 		// the follower holds everything except the logged changes and is at index base
 		for i := 0; i < n-incremental; i++ {
@@ -458,6 +468,25 @@ func main() {
 						label := lm.name
 						if inc > 0 {
 							label += fmt.Sprintf("/incremental-%d", inc)
+						}
+						if inc == 0 && e2e[n] && n > 0 && lm.name == "all-leaders" {
+							// once more with a follower that used to be the leader
+							formerLeader = true
+							v, conv, msgs := leaderFollower(n, lm.f, inc, label+"/former-leader", true)
+							formerLeader = false
+							cases++
+							cov.States++
+							cov.Transitions += int64(msgs + 1)
+							cov.TracesValidatedAgainstImpl++
+							cov.Evaluations++
+							if v != nil {
+								v.Scenario = "leader-follower"
+								v.Replay = map[string]interface{}{"regions": n, "leaders": lm.name, "former_leader": true}
+								rep.Report(v)
+							}
+							if !conv {
+								notConverged++
+							}
 						}
 						v, conv, msgs := leaderFollower(n, lm.f, inc, label, e2e[n])
 						cases++
